@@ -217,6 +217,7 @@ impl Property for C12 {
         for (i, res) in checks {
             let img = &images[i];
             evals += 1;
+            rep.fault("crash_between_or_during_store_calls");
             let confirmed: Vec<u64> = flushes.iter().filter(|f| f.ok && f.end_op <= img.op).flat_map(|f| f.ids.iter().copied()).collect();
             if !confirmed.is_empty() { rep.probe("crash_after_confirmed_flush"); rep.sub_fps.push(fnv(wl_fp, &[i as u8, (i >> 8) as u8])); }
             else if !fired.is_empty() { rep.sub_fps.push(fnv(wl_fp, &[i as u8, (i >> 8) as u8, 1])); }
